@@ -301,8 +301,8 @@ def judge_line(prop, cfg, dbg, group, args, resp, st, reqline, mode, endian='lit
                     add_violation(st, prop, cfg, mode, reqline, name, desc, 'relation must hold', 'relation violated')
         except Exception:
             st['inconclusive'].append('relation check raised on %r: %s' % (reqline, traceback.format_exc()[-600:]))
-    if len(st['samples']) < 3:
-        st['samples'].append({'cfg': cfg.name, 'mode': mode, 'request': reqline, 'response': resp[:600]})
+    if len(st['samples']) < 3 and (len(reqline) < 240 or not st['samples']):
+        st['samples'].append({'cfg': cfg.name, 'mode': mode, 'request': reqline[:600], 'response': resp[:600], 'classes': sorted(classes)[:6]})
 
 
 def is_loose(e):
@@ -344,8 +344,19 @@ def merge(a, b):
         if key not in a['viol_keys']:
             a['viol_keys'].add(key)
             a['viol_list'].append(v)
-    if len(a['samples']) < 12:
-        a['samples'] += b['samples'][:2]
+    pool = a['samples'] + b['samples'][:3]
+
+    def skey(x):
+        cl = x.get('classes', []) if isinstance(x, dict) else []
+        return (all(c.startswith('plain') for c in cl), len(x.get('request', '')) // 80 if isinstance(x, dict) else 0)
+    pool.sort(key=skey)
+    seen, out = Counter(), []
+    for x in pool:
+        c = x.get('cfg') if isinstance(x, dict) else None
+        if seen[c] < 2:
+            seen[c] += 1
+            out.append(x)
+    a['samples'] = out[:12]
     a['exhaustive'] += b['exhaustive']
 
 
